@@ -350,6 +350,13 @@ func Explore[C any](r *Run, t *testing.T, check string, checks int, gen func(*ra
 		})
 		return
 	}
+	r.regress(t, check, func(raw json.RawMessage) (any, Verdict, error) {
+		var c C
+		if err := json.Unmarshal(raw, &c); err != nil {
+			return nil, Verdict{}, err
+		}
+		return c, exec(c), nil
+	})
 
 	flag.Set("rapid.checks", strconv.Itoa(checks))
 	flag.Set("rapid.seed", strconv.FormatInt(r.ShardSeed(int64(len(check))*31+int64(check[0])), 10))
@@ -401,6 +408,13 @@ func Enumerate[C any](r *Run, t *testing.T, check string, next func() (C, bool),
 		})
 		return
 	}
+	r.regress(t, check, func(raw json.RawMessage) (any, Verdict, error) {
+		var c C
+		if err := json.Unmarshal(raw, &c); err != nil {
+			return nil, Verdict{}, err
+		}
+		return c, exec(c), nil
+	})
 	nviol := 0
 	for {
 		c, ok := next()
@@ -422,6 +436,46 @@ func Enumerate[C any](r *Run, t *testing.T, check string, next func() (C, bool),
 				r.Violation(check, c, v)
 				t.Errorf("%s: %s", check, firstLine(v.Fail))
 			}
+		}
+	}
+}
+
+// regress re-executes the committed regression cases of this check (/verif/regress: minimal
+// failing cases of defects that were repaired, and of seeded changes) without the generator
+// library, before any generated case. Shard 0 only.
+func (r *Run) regress(t *testing.T, check string, run func(json.RawMessage) (any, Verdict, error)) {
+	if r.Shard != 0 {
+		return
+	}
+	files, _ := filepath.Glob(filepath.Join(VerifRoot, "regress", r.Property+"-"+check+"-*.json"))
+	sort.Strings(files)
+	for _, f := range files {
+		data, err := os.ReadFile(f)
+		if err != nil {
+			continue
+		}
+		var rf replayFile
+		if json.Unmarshal(data, &rf) != nil || rf.Check != check {
+			continue
+		}
+		c, v, err := run(rf.Case)
+		if err != nil {
+			continue
+		}
+		r.Class("regression-case", 1)
+		if v.Fail != "" && r.KnownSig(v.Sig) {
+			r.mu.Lock()
+			r.knownHit[v.Sig]++
+			r.mu.Unlock()
+			continue
+		}
+		r.Record(c, v)
+		if v.Fail != "" {
+			r.mu.Lock()
+			r.violations = append(r.violations, violation{Check: check, Message: v.Fail, Replay: f, Sig: v.Sig})
+			r.mu.Unlock()
+			fmt.Printf("VIOLATION-DETAIL property=%s check=%s sig=%s: %s\n", r.Property, check, v.Sig, firstLine(v.Fail))
+			t.Errorf("regression case %s violates: %s", filepath.Base(f), firstLine(v.Fail))
 		}
 	}
 }
